@@ -26,7 +26,7 @@ inductive MsgRes where
   | out (msgs : List (Int × Msg)) (err : Option Err) (cost gz : Nat)
 
 /-- The generator `v0` / `v1` up to the codec dispatch: timestamp (v1), key, value. -/
-def msgFields (magic : Int) : Rd (Option Int × Option (List UInt8) × Option (List UInt8)) :=
+def msgFields [HasMeasure] (magic : Int) : Rd (Option Int × Option (List UInt8) × Option (List UInt8)) :=
   if magic == 0 then do
     let key ← readIntString
     let value ← readIntString
@@ -50,10 +50,10 @@ def v1Inner (wrapperOffset : Int) (r : SetOut) (k : Nat) (glen : Nat) : MsgRes :
 
 /-- `_decode_message(data, offset)` and the iteration of its result.
     `inner` decodes a nested (decompressed) message set. -/
-def decodeMessage (inner : List UInt8 → SetOut) (gunzip : Gz) (msg : Option (List UInt8))
+def decodeMessage [hm : HasMeasure] (inner : List UInt8 → SetOut) (gunzip : Gz) (msg : Option (List UInt8))
     (offset : Int) : MsgRes :=
   match msg with
-  | none => .out [] (some .typeError) 1 0     -- relative_unpack: len(None)
+  | none => .out [] (some .typeError) (tick hm.μ 0) 0     -- relative_unpack: len(None), nothing sliced
   | some data =>
     match relativeUnpack c12Fmt_message_0 data 0 0 with
     | .err .bufferUnderflow k => .bue k
@@ -86,14 +86,14 @@ def decodeMessage (inner : List UInt8 → SetOut) (gunzip : Gz) (msg : Option (L
       | _ => .out [] (some .valueError) k 0
 
 /-- `offset ← relative_unpack(">q")`, `msg ← read_int_string` — the 12-byte entry header and body. -/
-def entryHeader : Rd (Int × Option (List UInt8)) := do
+def entryHeader [HasMeasure] : Rd (Int × Option (List UInt8)) := do
   let [offset] ← relativeUnpack c12Fmt_msgset_0 | fail .valueError
   let msg ← readIntString
   pure (offset, msg)
 
 /-- The `while cur < len(data)` loop of `_decode_message_set_iter`.
     `acc` is the reversed list of what has been yielded; `rm` is `read_message`. -/
-def setLoop (inner : List UInt8 → SetOut) (gunzip : Gz) (data : List UInt8) :
+def setLoop [HasMeasure] (inner : List UInt8 → SetOut) (gunzip : Gz) (data : List UInt8) :
     Nat → Nat → Bool → List (Int × Msg) → Nat → Nat → SetOut
   | 0, _, _, acc, k, g => ⟨acc.reverse, some .modelFuel, k, g⟩
   | fuel + 1, cur, rm, acc, k, g =>
@@ -113,14 +113,14 @@ def setLoop (inner : List UInt8 → SetOut) (gunzip : Gz) (data : List UInt8) :
     else ⟨acc.reverse, none, k, g⟩
 
 /-- Iterating `_decode_message_set_iter(data)`; compressed sets may nest `depth` deep. -/
-def decodeSet (gunzip : Gz) : Nat → List UInt8 → SetOut
+def decodeSet [HasMeasure] (gunzip : Gz) : Nat → List UInt8 → SetOut
   | 0, data =>
     setLoop (fun _ => ⟨[], some .recursion, 0, 0⟩) gunzip data (data.length + 1) 0 false [] 0 0
   | depth + 1, data =>
     setLoop (decodeSet gunzip depth) gunzip data (data.length + 1) 0 false [] 0 0
 
 /-- `_decode_message_set_iter(None)`: `len(None)` raises on the first `next()`. -/
-def decodeSetOpt (gunzip : Gz) (depth : Nat) : Option (List UInt8) → SetOut
+def decodeSetOpt [HasMeasure] (gunzip : Gz) (depth : Nat) : Option (List UInt8) → SetOut
   | none => ⟨[], some .typeError, 0, 0⟩
   | some data => decodeSet gunzip depth data
 
@@ -139,7 +139,7 @@ def fetchSets : Val → List (Option (List UInt8))
 /-- total cost of `decode_fetch_response` + iterating every `messages` generator, and the total
     number of bytes obtained from gunzip; `none` when the response decoder itself raised (its cost
     is then the first component). -/
-def fetchTotal (gz : Gz) (depth : Nat) (v : Int) (bs : List UInt8) : Nat × Option Nat :=
+def fetchTotal [HasMeasure] (gz : Gz) (depth : Nat) (v : Int) (bs : List UInt8) : Nat × Option Nat :=
   match run (decodeFetch v) bs with
   | .err _ k => (k, none)
   | .ok val _ k =>
